@@ -1,5 +1,282 @@
 import Driver.Common
-/-! Driver for C08 (stub: not built yet). -/
-def main (_args : List String) : IO UInt32 := do
-  IO.eprintln "C08: driver not implemented"
-  return 2
+import CoapVerif.Model.Observe
+import CoapVerif.Spec.Observe
+/-!
+Driver for C08.  Input lines: `cfg <transport>` (new connection), `reg <tok>`, `arrive <tok> <code> <seq|-> <atNs> <tag>`,
+`regabort <tok> <id>`, `cancel <tok> <id>`, `valid <old> <new> <last|-> <now>`.
+`model`: what the model of net/observation does (a registration call that can complete is completed at once,
+as the harness observes it at quiescence).  `judge`: `<input> | <observed>` evaluated by the RFC 7641 level
+reference monitor and the `Spec.Observe` judges.
+-/
+namespace Driver.C08
+open CoapVerif
+open CoapVerif.Spec.Observe (Obs)
+
+def fmtObs : Obs → String
+  | .cb id tok s t tag => s!"cb {id} {tok} {match s with | some v => toString v | none => "-"} {t} {Char.ofNat tag}"
+  | .registered _ _ => ""
+  | .regOk id => s!"regok {id}"
+  | .regErr id => s!"regerr {id}"
+  | .cancelled id => s!"cancelled {id}"
+  | .toDefault _ tag => s!"default {Char.ofNat tag}"
+
+def joinObs (l : List String) : String :=
+  let l := l.filter (· ≠ "")
+  if l.isEmpty then "none" else " ; ".intercalate l
+
+def parseSeq (s : String) : Option (Option Nat) := if s = "-" then some none else s.toNat?.map some
+def tagCode (s : String) : Nat := match s.toList with | c :: _ => c.toNat | [] => 63
+
+structure MState where
+  st : Model.Observe.State := {}
+  pending : List Nat := []     -- registration calls still blocked in NewObservation
+  ok : List Nat := []          -- registrations that returned an Observation handle
+  gone : List Nat := []        -- ids already reported as cancelled
+
+/-- print a list of model observations; a failed registration is reported as `cancelled` too (it is gone). -/
+def render (ms : MState) (os : List Obs) : MState × List String := Id.run do
+  let mut ms := ms
+  let mut out : List String := []
+  for o in os do
+    match o with
+    | .cancelled id =>
+      if !ms.gone.contains id then
+        ms := { ms with gone := id :: ms.gone }
+        out := out ++ [fmtObs o]
+    | .regErr id =>
+      out := out ++ [fmtObs o]
+      ms := { ms with pending := ms.pending.filter (· ≠ id) }
+    | .regOk id =>
+      out := out ++ [fmtObs o]
+      ms := { ms with pending := ms.pending.filter (· ≠ id), ok := id :: ms.ok }
+    | _ => out := out ++ [fmtObs o]
+  return (ms, out)
+
+/-- a failed registration is `gone` even when nothing was stored for it -/
+def markFailed (ms : MState) (os : List Obs) (out : List String) : MState × List String := Id.run do
+  let mut ms := ms
+  let mut out := out
+  for o in os do
+    if let .regErr id := o then
+      if !ms.gone.contains id then
+        ms := { ms with gone := id :: ms.gone }
+        out := out ++ [s!"cancelled {id}"]
+  return (ms, out)
+
+def modelStep (ms : MState) (line : String) : MState × String :=
+  match words line with
+  | ["cfg", _] => ({}, "ok")
+  | ["valid", o, n, l, t] =>
+    match o.toNat?, n.toNat?, parseInt? t with
+    | some o, some n, some t =>
+      let last : Option Int := if l = "-" then none else parseInt? l
+      (ms, toString (Model.Observe.validSeq o n last t))
+    | _, _, _ => (ms, "bad-op")
+  | ["reg", tok] =>
+    match tok.toNat? with
+    | some tok =>
+      let id := ms.st.nextId
+      let (s1, os) := Model.Observe.step ms.st (.reg tok)
+      let ms1 := { ms with st := s1, pending := id :: ms.pending }
+      let (ms2, out) := render ms1 os
+      let (ms3, out) := markFailed ms2 os out
+      (ms3, joinObs out)
+    | none => (ms, "bad-op")
+  | ["arrive", tok, code, seq, at_, tag] =>
+    match tok.toNat?, code.toNat?, parseSeq seq, parseInt? at_ with
+    | some tok, some code, some seq, some now =>
+      let (s1, os1) := Model.Observe.step ms.st (.arrive tok code seq now (tagCode tag))
+      -- registration calls whose first-response signal is now available return at once
+      let ready := s1.sigs.map (·.id)
+      let (s2, os2) := ready.foldl (fun (acc : Model.Observe.State × List Obs) id =>
+        let (s, o) := Model.Observe.step acc.1 (.regDone tok id); (s, acc.2 ++ o)) (s1, [])
+      let (ms2, out) := render { ms with st := s2 } (os1 ++ os2)
+      let (ms3, out) := markFailed ms2 (os1 ++ os2) out
+      (ms3, joinObs out)
+    | _, _, _, _ => (ms, "bad-op")
+  | ["regabort", tok, id] =>
+    match tok.toNat?, id.toNat? with
+    | some tok, some id =>
+      if ms.pending.contains id then
+        let (s1, os) := Model.Observe.step ms.st (.regAbort tok id)
+        let (ms2, out) := render { ms with st := s1 } os
+        let (ms3, out) := markFailed ms2 os out
+        (ms3, joinObs out)
+      else (ms, "none")
+    | _, _ => (ms, "bad-op")
+  | ["cancel", tok, id] =>
+    match tok.toNat?, id.toNat? with
+    | some tok, some id =>
+      if ms.ok.contains id then
+        let (s1, os) := Model.Observe.step ms.st (.cancel tok id)
+        let (ms2, out) := render { ms with st := s1 } os
+        (ms2, joinObs (s!"cancelreturned {id}" :: out))
+      else (ms, "none")
+    | _, _ => (ms, "bad-op")
+  | ["end"] => (ms, "end")
+  | _ => (ms, "bad-op")
+
+/-! ### judge -/
+
+inductive Phase | pending | live | gone deriving BEq, Repr
+
+structure JReg where
+  id : Nat
+  tok : Nat
+  phase : Phase
+  prev : Option (Nat × Int) := none
+  firstCode : Option Nat := none
+
+structure JState where
+  regs : List JReg := []
+  all : List Obs := []          -- every observation so far, for the whole-history judges
+  nextId : Nat := 0
+
+def parseObsEvents (s : String) : Option (List Obs) :=
+  if s = "none" then some [] else
+  (s.splitOn " ; ").foldr (fun part acc => do
+    let acc ← acc
+    match words part with
+    | ["cb", id, tok, seq, t, tag] =>
+      let id ← id.toNat?; let tok ← tok.toNat?; let seq ← parseSeq seq; let t ← parseInt? t
+      some (Obs.cb id tok seq t (tagCode tag) :: acc)
+    | ["regok", id] => (id.toNat?).map (fun i => Obs.regOk i :: acc)
+    | ["regerr", id] => (id.toNat?).map (fun i => Obs.regErr i :: acc)
+    | ["cancelled", id] => (id.toNat?).map (fun i => Obs.cancelled i :: acc)
+    | ["cancelreturned", id] => (id.toNat?).map (fun i => Obs.cancelled i :: acc)   -- Cancel has returned: silence from here on
+    | ["default", tag] => some (Obs.toDefault 0 (tagCode tag) :: acc)
+    | _ => none) (some [])
+
+def applyObs (js : JState) (os : List Obs) : JState :=
+  os.foldl (fun js o =>
+    match o with
+    | .regOk id => { js with regs := js.regs.map (fun r => if r.id == id && r.phase == .pending then { r with phase := .live } else r) }
+    | .regErr id => { js with regs := js.regs.map (fun r => if r.id == id then { r with phase := .gone } else r) }
+    | .cancelled id => { js with regs := js.regs.map (fun r => if r.id == id then { r with phase := .gone } else r) }
+    | .cb id _ (some v) t _ => { js with regs := js.regs.map (fun r => if r.id == id then { r with prev := some (v, t) } else r) }
+    | _ => js) js
+
+def wholeHistoryVerdict (js : JState) : Option String :=
+  let ids := List.range js.nextId
+  if !(Spec.Observe.judgeOwnToken [] js.all) then some "callback invoked with a message of a foreign token"
+  else match ids.find? (fun id => !(Spec.Observe.judgeFresh id none js.all)) with
+    | some id => some s!"registration {id}: delivered notification is not fresh w.r.t. the previous one"
+    | none => match ids.find? (fun id => !(Spec.Observe.judgeSilent id false js.all)) with
+      | some id => some s!"registration {id}: callback invoked after cancellation/failure"
+      | none => none
+
+def judgeLine (js : JState) (line : String) : JState × String :=
+  match line.splitOn " | " with
+  | [inp] =>
+    match words inp with
+    | ["cfg", _] => ({}, "ok")
+    | ["valid", o, n, l, t] =>
+      match o.toNat?, n.toNat?, parseInt? t with
+      | some o, some n, some t =>
+        -- RFC 7641 §3.4; no previous notification (`-`): always fresh
+        let r := match (if l = "-" then none else parseInt? l) with
+          | none => true
+          | some l => Spec.Observe.fresh o n l t
+        (js, toString r)
+      | _, _, _ => (js, "bad-op")
+    | ["end"] => (js, "end")
+    | _ => (js, "bad-op")
+  | [inp, obs] =>
+    match parseObsEvents obs with
+    | none => (js, "violates unparsable-observation")
+    | some os =>
+      let ws := words inp
+      -- expectations that depend on the state *before* this line
+      let pre : Option String :=
+        match ws with
+        | ["arrive", tok, code, seq, at_, tag] =>
+          match tok.toNat?, code.toNat?, parseSeq seq, parseInt? at_ with
+          | some tok, some code, some seq, some now =>
+            let tg := tagCode tag
+            let cbs := os.filterMap (fun o => match o with | .cb id _ _ _ g => if g == tg then some id else none | _ => none)
+            let dflt := os.any (fun o => match o with | .toDefault _ g => g == tg | _ => false)
+            match js.regs.find? (fun r => r.tok == tok && !(r.phase == .gone)) with
+            | none =>
+              if !cbs.isEmpty then some "message for a token without registration reached a callback"
+              else if !dflt then some "message for a token without registration was not handed to the default handler"
+              else none
+            | some r =>
+              if r.phase == .live then
+                let want := match seq, r.prev with
+                  | none, _ => true
+                  | some _, none => true
+                  | some v, some (v1, t1) => Spec.Observe.fresh v1 v t1 now
+                if want && cbs != [r.id] then some s!"fresh notification for live registration {r.id} did not reach (only) its callback"
+                else if !want && !cbs.isEmpty then some s!"stale notification for registration {r.id} reached a callback"
+                else if dflt then some "notification of a live registration was handed to the default handler"
+                else none
+              else
+                -- registration still pending: this is its first response; success iff 2.05 / 2.03
+                let okc := code == 69 || code == 67
+                let sawOk := os.any (fun o => match o with | .regOk id => id == r.id | _ => false)
+                let sawErr := os.any (fun o => match o with | .regErr id => id == r.id | _ => false)
+                if okc && !sawOk then some s!"registration {r.id} did not succeed on a {code} answer"
+                else if !okc && !sawErr then some s!"registration {r.id} did not fail on a {code} answer"
+                else if cbs.any (· != r.id) then some "first response reached a foreign callback"
+                else none
+          | _, _, _, _ => some "bad-op"
+        | _ => none
+      -- bookkeeping
+      let js1 : JState :=
+        match ws with
+        | ["reg", tok] =>
+          match tok.toNat? with
+          | some tok => { js with regs := js.regs ++ [{ id := js.nextId, tok := tok, phase := .pending }], nextId := js.nextId + 1,
+                                  all := js.all ++ [Obs.registered js.nextId tok] }
+          | none => js
+        | _ => js
+      -- a registration with a token that is already registered must be refused and must not disturb the first
+      let dupErr : Option String :=
+        match ws with
+        | ["reg", tok] =>
+          match tok.toNat? with
+          | some tok =>
+            if (js.regs.any (fun r => r.tok == tok && !(r.phase == .gone))) then
+              if os.any (fun o => match o with | .regErr id => id == js.nextId | _ => false) then
+                -- undo the `registered` record: it never entered the table
+                none
+              else some "second registration with an outstanding token was not rejected"
+            else none
+          | none => none
+        | _ => none
+      let js1 := match ws, dupErr with
+        | ["reg", _], none =>
+          if os.any (fun o => match o with | .regErr id => id == js.nextId | _ => false)
+          then { js1 with all := js.all, regs := js1.regs.map (fun (r : JReg) => if r.id == js.nextId then { r with phase := Phase.gone } else r) }
+          else js1
+        | _, _ => js1
+      let js2 := applyObs { js1 with all := js1.all ++ os.map (fun o =>
+          match o, ws with
+          | Obs.toDefault _ g, ["arrive", tok, _, _, _, _] => Obs.toDefault (tok.toNat?.getD 0) g
+          | o, _ => o) } os
+      match pre, dupErr, wholeHistoryVerdict js2 with
+      | some e, _, _ => (js2, s!"violates {e}")
+      | none, some e, _ => (js2, s!"violates {e}")
+      | none, none, some e => (js2, s!"violates {e}")
+      | none, none, none => (js2, "ok")
+  | _ => (js, "bad-op")
+
+end Driver.C08
+
+def main (args : List String) : IO UInt32 := do
+  let stdin ← IO.getStdin
+  let stdout ← IO.getStdout
+  match args with
+  | ["model"] =>
+    let _ ← Driver.foldLines stdin ({} : Driver.C08.MState) fun s l => do
+      let (s', o) := Driver.C08.modelStep s l
+      stdout.putStrLn o
+      pure s'
+  | ["judge"] =>
+    let _ ← Driver.foldLines stdin ({} : Driver.C08.JState) fun s l => do
+      let (s', o) := Driver.C08.judgeLine s l
+      stdout.putStrLn o
+      pure s'
+  | _ => IO.eprintln "usage: drv_c08 model|judge"; return 2
+  stdout.flush
+  return 0
